@@ -450,9 +450,15 @@ def check(cx):
         needs = [('empty', 'the empty string', Not(Atom(('empty', X))))]
         for ch, what in ((' ', 'a space'), (',', 'a comma'), (':', 'a colon')):
             needs.append((what.split()[-1], 'a name containing ' + what, Not(has(X, ('lit', ch)))))
+        # a string that has a first / last / next element is not empty
+        ax = T
+        for a in atoms(okc):
+            if a[0] == 'is' and a[2] == 'Some' and isinstance(a[1], tuple) and a[1][:1] == ('call',) and \
+                    a[1][1].split('::')[-1] in ('first', 'last', 'next', 'nth', 'split_first', 'split_last', 'next_back') and mentions(a[1], X):
+                ax = And(ax, Or(Not(Atom(a)), Not(Atom(('empty', X)))))
         for tag, what, goal in needs:
             r10.instance('%s rejects %s' % (vname, what))
-            ok, m = entails(okc, goal)
+            ok, m = entails(okc, goal, ax)
             if not ok:
                 r10.violation('%s|accepts-%s' % (vname, tag), '%s accepts %s: given as a trailing parameter it becomes a nick / channel / user name '
                               'that the server then emits as a middle parameter, so every line naming it is re-parsed differently by its '
